@@ -379,8 +379,9 @@ class Consumer(object):
             # Need to commit prior to stopping
             self.commit().addCallbacks(_handle_shutdown_commit_success, _handle_shutdown_commit_failure)
 
-        # If we're not running, return an failure
-        if self._start_d is None:
+        # If we're not running (or stop() is tearing us down right now: one of the
+        # callbacks it fires may call us), return an failure
+        if self._start_d is None or self._stopping:
             return fail(Failure(RestopError("Shutdown called on non-running consumer")))
         # If we're called multiple times, return a failure
         if self._shutdown_d:
